@@ -52,6 +52,18 @@ CHECKS = {
  "C03": ("exploration", "property-based testing (proptest) + grid enumeration of honest exchanges between the real client binary and (a) a reference responder, (b) the real in-process Server behind a relay",
          "For both protocols, all key options, output modes, 1..=4 requests and every path depth (all 64x64 size/position pairs in thorough) the client must exit 0, print exactly the signed midpoint converted from the protocol's unit and report verified iff a key was given.",
          "Only responses the strict verifier accepts count as honest. Midpoints from the epoch to 9999-12-31; local-time formatting is not exercised (-z).", "DESIGN.md §3 C03"),
+ "C15": ("exploration", "configuration-space sampling (pairwise-covering set + proptest draws) against the real server binary with /proc, UDP and TCP observations",
+         "Each generated configuration starts the real binary; liveness and distinctness of every configured worker, exactly-once valid answers for 64*N requests, one certificate per worker, exact health-check responses and absence of panic text are asserted.",
+         "Exploration over a sampled configuration space; TCP health connections are sequential (burst/accept-queue behaviour is not decided); deadlines are >= 50x the normal latency.", "DESIGN.md §3 C15"),
+ "C16": ("exploration", "boundary-value grid + property-based testing (proptest) of configuration values through a probe process running the product's own loader, judged by a model of the documentation",
+         "Every documented key is probed at its boundary and type-width wrap values through both sources; the loader must either reproduce the written value or refuse. Thorough adds start-up-log spot checks on the real server.",
+         "The model encodes only ranges stated in README / ServerConfig rustdoc / the property; unclassified values are not generated.", "DESIGN.md §3 C16"),
+ "C18": ("exploration", "randomised concurrent stress (seeded proptest round plans) of the real multi-worker binary with per-request strict verification; schedules sampled",
+         "Many seeded rounds of concurrent closed-loop clients against 1..16 workers; every reply is verified for the outstanding request, duplicates/strays and dead workers are violations; diversity of the kernel's distribution is measured (distinct delegated keys seen).",
+         "Schedules and SO_REUSEPORT distribution are sampled, not controlled: a pass is evidence over the sampled schedules only. Unanswered requests count only with zero kernel drops.", "DESIGN.md §3 C18, §4"),
+ "C19": ("exploration", "fault/schedule sampling: signal delivery at swept delays under idle, closed-loop and flood load (grid + proptest plans) against the real binary",
+         "Signal instants are swept over 0..300 ms and around the 100 ms poll and 1 s reporter periods, under three load shapes; exit status 0 within 5 s, no panic text and validity of every reply before exit are asserted; the flood's effect on the receive queue is measured.",
+         "Delivery instants are sampled; bounded-response reading of 'promptly' (5 s). Fewer worker processes are used so floods get CPU.", "DESIGN.md §3 C19, §4"),
 }
 
 NOT_YET = {}
